@@ -20,7 +20,7 @@ func init() { core.Register(c18{}) }
 func (c18) ID() string    { return "C18" }
 func (c18) Level() string { return "exploration" }
 func (c18) Rule() string {
-	return "(a) seeded #{...} expressions (integer arithmetic with + - * % and parentheses, comparisons, boolean connectives, ternaries, string concatenation, membership) whose operands - and sometimes operators - are ${...} placeholders (configured, defaulted, nested), bound to int / bool / string fields of reflect.StructOf holders; oracle: the model resolver substitutes the placeholders, the expression library itself evaluates the substituted text directly, the field must hold that result (if direct evaluation fails, Run must fail). (b) value x constraint pairs: literal, placeholder-fed and expression-produced values of int / string / []int / bool fields with validate arguments (min max gt lt gte lte eq ne len required oneof alpha numeric for scalars and slices; struct-level validate tags on run-time built struct types); oracle: a directly constructed validator (same options) is asked about the expected bound value with the same constraints - the start must fail iff the validator objects (both directions). (c) stage interaction: an expression fed by placeholders produces the value that is then validated. non-trivial = expression with >= 2 placeholders or an operator placeholder, or a validation case where the verdict is 'violates'; distinct = (tag, configuration); repeated family: one tag text evaluated on two components or by up to three creation attempts of a lazy component with Set changes in between - each evaluation substitutes, evaluates and validates afresh; struct targets with a required nested struct held by value; floating-point expressions compared exactly; order-sensitive constraint lists; validation behind optional points; preset family (slice / map / struct fields filled before the start receive exactly the bound value, which is what gets validated); constraints behind pointer members; expressions supplied by the configuration; string results in other numeric notations; bool fields fed by the text true / false; multiValidated family; built-in functions next to keys of the same name; negativeDefaults family; deepPointer family (validated struct properties behind several pointers)"
+	return "(a) seeded #{...} expressions (integer arithmetic with + - * % and parentheses, comparisons, boolean connectives, ternaries, string concatenation, membership) whose operands - and sometimes operators - are ${...} placeholders (configured, defaulted, nested), bound to int / bool / string fields of reflect.StructOf holders; oracle: the model resolver substitutes the placeholders, the expression library itself evaluates the substituted text directly, the field must hold that result (if direct evaluation fails, Run must fail). (b) value x constraint pairs: literal, placeholder-fed and expression-produced values of int / string / []int / bool fields with validate arguments (min max gt lt gte lte eq ne len required oneof alpha numeric for scalars and slices; struct-level validate tags on run-time built struct types); oracle: a directly constructed validator (same options) is asked about the expected bound value with the same constraints - the start must fail iff the validator objects (both directions). (c) stage interaction: an expression fed by placeholders produces the value that is then validated. non-trivial = expression with >= 2 placeholders or an operator placeholder, or a validation case where the verdict is 'violates'; distinct = (tag, configuration); repeated family: one tag text evaluated on two components or by up to three creation attempts of a lazy component with Set changes in between - each evaluation substitutes, evaluates and validates afresh; struct targets with a required nested struct held by value; floating-point expressions compared exactly; order-sensitive constraint lists; validation behind optional points; preset family (slice / map / struct fields filled before the start receive exactly the bound value, which is what gets validated); constraints behind pointer members; expressions supplied by the configuration; string results in other numeric notations; bool fields fed by the text true / false; multiValidated family; built-in functions next to keys of the same name; negativeDefaults family; deepPointer family (validated struct properties behind several pointers); emptySubstitution family (expressions over absent keys on required properties)"
 }
 func (c18) Assumptions() []string {
 	return []string{
